@@ -46,6 +46,9 @@ func (ex *Exec) mentionsUnboundSiteLet(s *State, e *E) bool {
 				return true
 			}
 		}
+		if e.Op == "call" && len(e.Args) == 2 && e.Args[0].Op == "id" && e.Args[0].Name == "bound" {
+			return false // bound(x) asks whether the path reached x's site: always evaluable
+		}
 		for _, a := range e.Args {
 			if walk(a) {
 				return true
